@@ -129,6 +129,7 @@ fn main() {
         "asmseq" => suites::assembler::run_seq(&ctx),
         "asmscen" => suites::assembler::run_scen(&ctx),
         "sigc01" => suites::signal::run_c01(&ctx),
+        "signear" => suites::signal::run_near(&ctx),
         "expand" => {
             // stdin: requests whose hashes disagreed; output: the individual requests they stand for
             use std::io::BufRead;
